@@ -6,7 +6,7 @@ import uuid
 import dpapi_ng
 from dpapi_ng import _blob, _client, _crypto, _gkdi
 
-from .world import World
+from .world import ScalarOutOfRange, World  # noqa
 
 RK = uuid.UUID("2e1b932a-4e21-ced3-0b7b-8815aff8335d")
 EPOCH = 116444736000000000
